@@ -159,6 +159,11 @@ func main() {
 		}
 		nets = append(nets, map[string]interface{}{"name": nm, "type": "fake-" + nm, "cniVersion": "0.2.0", "marker": "static-" + nm})
 	}
+	// netd exists only as a file in the network configuration directory
+	_ = os.Remove(filepath.Join(bin, "fake-netd"))
+	_ = os.Symlink(*plugin, filepath.Join(bin, "fake-netd"))
+	_ = os.MkdirAll(filepath.Join(*work, "net.d"), 0755)
+	_ = os.WriteFile(filepath.Join(*work, "net.d", "10-netd.conf"), []byte(`{"name":"netd","type":"fake-netd","cniVersion":"0.2.0","marker":"static-netd"}`), 0644)
 	conf := map[string]interface{}{"NetworkConf": nets, "DefaultNetworks": vf.Defaults, "ENIIPNetwork": vf.Eni}
 	cb, _ := json.Marshal(conf)
 	confPath := filepath.Join(*work, "galaxy.json")
@@ -240,7 +245,18 @@ func main() {
 		cidOf := map[string]string{"c1": fmt.Sprintf("s%dc1", k), "c2": fmt.Sprintf("s%dc2", k)}
 		podOf := map[string]string{"c1": fmt.Sprintf("pod-%d-1", k), "c2": fmt.Sprintf("pod-%d-2", k)}
 		ipinfoOf := map[string]string{}
+		// the conf-dir network gets a fresh concrete name per scenario, so that every scenario exercises the
+		// daemon's FIRST load of that network
+		netd := fmt.Sprintf("x%d-netd", k)
+		_ = os.WriteFile(filepath.Join(*work, "net.d", fmt.Sprintf("20-%s.conf", netd)),
+			[]byte(fmt.Sprintf(`{"name":%q,"type":"fake-netd","cniVersion":"0.2.0","marker":"static-netd"}`, netd)), 0644)
 		for c, d := range sc.Pods {
+			for i := range d.Ann {
+				if d.Ann[i].Name == "netd" {
+					d.Ann = append([]annEl{}, d.Ann...)
+					d.Ann[i].Name = netd
+				}
+			}
 			ipinfo := ""
 			if d.ID != "plain" {
 				ipinfo = fmt.Sprintf(`{"common":{"ipinfos":[{"ip":"192.168.%d.%s/24","vlan":2,"gateway":"192.168.%d.1"}]}}`, k%250, c[1:], k%250)
@@ -252,7 +268,13 @@ func main() {
 		for ri, r := range sc.Reqs {
 			requests++
 			_ = os.Remove(logPath)
-			cb, _ := json.Marshal(r.Fail)
+			fails := append(r.Fail[:0:0], r.Fail...)
+			for i := range fails {
+				if fails[i].Net == "netd" {
+					fails[i].Net = netd
+				}
+			}
+			cb, _ := json.Marshal(fails)
 			_ = os.WriteFile(ctlPath, cb, 0644)
 			code, body := send(r.Cmd, cidOf[r.Cid], podOf[r.Cid])
 			exp := sc.Expect[ri]
@@ -282,6 +304,12 @@ func main() {
 			}
 			for i, e := range exp.Invs {
 				m := got[i]
+				if m["name"] == netd {
+					m["name"] = "netd"
+					if conf, ok := m["conf"].(map[string]interface{}); ok {
+						conf["name"] = "netd"
+					}
+				}
 				if m["cmd"] != e.Cmd || m["name"] != e.Net || m["ifname"] != e.Ifn || m["cid"] != cidOf[r.Cid] {
 					add("invocations", sc, ri, fmt.Sprintf("invocation %d is %s, expected %+v on %s", i, brief(got[i:i+1]), e, cidOf[r.Cid]))
 					continue
@@ -339,6 +367,9 @@ func main() {
 				var infos []struct{ NetworkType string }
 				_ = json.Unmarshal(sb, &infos)
 				for _, x := range infos {
+					if x.NetworkType == netd {
+						x.NetworkType = "netd"
+					}
 					saved = append(saved, x.NetworkType)
 				}
 			}
@@ -349,6 +380,7 @@ func main() {
 		if hit {
 			nontrivial++
 		}
+		_ = os.Remove(filepath.Join(*work, "net.d", fmt.Sprintf("20-%s.conf", netd)))
 		for _, c := range []string{"c1", "c2"} {
 			_ = os.Remove(filepath.Join(stateDir, cidOf[c]))
 			_ = client.CoreV1().Pods("ns").Delete(context.TODO(), podOf[c], metav1.DeleteOptions{})
